@@ -46,7 +46,7 @@ CLAIMS['C10'] = dict(
          "(T2) every function that resizes the underlying vector asks for n+1 elements and writes the NUL at element n through the "
          "re-read base pointer on every path, and nothing else changes the count; (T3) positional operations touch the buffer only "
          "under the documented bound (pos <= size for insert, pos < size otherwise) and abort on the other edge; (T4) str() never "
-         "returns NULL; (T5) the wide instantiation scales every byte count handed to memcpy/memmove/memset by the character size and uses memset only to fill with 0; (T6) resize's NUL fill of the grown part starts at the old size (never at the old capacity); (T7) swap exchanges every member; (T8) no character pointer read before a reallocation of the same string's storage is used after it; (T9) compare is not bounded by one operand's length alone; (T11) a string object used as a source is measured by its size, never strlen / wcslen; (T12) characters are moved within one buffer with memmove; (T13) no parameter-derived size is compared as a signed value; (T10) every store / effectful call made by the assertion-enabled build is also made by the NDEBUG build (no work inside assert()). Equality with a reference string and agreement of find/compare with the C library are NOT decided.",
+         "returns NULL; (T5) the wide instantiation scales every byte count handed to memcpy/memmove/memset by the character size and uses memset only to fill with 0; (T6) resize's NUL fill of the grown part starts at the old size (never at the old capacity); (T7) swap exchanges every member; (T8) no character pointer read before a reallocation of the same string's storage is used after it; (T9) compare is not bounded by one operand's length alone; (T11) a string object used as a source is measured by its size, never strlen / wcslen; (T12) characters are moved within one buffer with memmove; (T13) no parameter-derived size is compared as a signed value; (T14) substr writes / resizes its destination on every path to its return (an empty result included); (T10) every store / effectful call made by the assertion-enabled build is also made by the NDEBUG build (no work inside assert()). Equality with a reference string and agreement of find/compare with the C library are NOT decided.",
     technique="no-wrap obligations by dominating-facts entailment over inlined LLVM IR; dominance / post-dominance rules; both template instantiations")
 
 CLAIMS['C14'] = dict(
